@@ -19,19 +19,37 @@ struct Case {
     eol: String,
 }
 
-/// the first `QUICK_ATTRS` sets are used in the quick tier
-const ATTRS: [&str; 20] = [
+/// the first `QUICK_ATTRS` sets are used in the quick tier; ` | ` separates several attribute lines for the same path (later lines win)
+const ATTRS: [&str; 35] = [
     "",
     "text",
     "-text",
     "text=auto",
     "text eol=crlf",
-    "eol=lf",
     "text=auto eol=crlf",
     "crlf",
-    "crlf=input",
     "binary",
     "ident",
+    // an explicitly unset text attribute must not be overruled by eol= (one line, and two cooperating lines)
+    "-text eol=crlf",
+    "-text eol=lf",
+    "binary eol=crlf",
+    "binary eol=lf",
+    "-crlf eol=crlf",
+    "-crlf eol=lf",
+    "eol=crlf | -text",
+    "eol=lf | -text",
+    "eol=crlf | binary",
+    "eol=lf | binary",
+    "eol=crlf | -crlf",
+    "eol=lf | -crlf",
+    "text=auto eol=lf | binary",
+    "-text | eol=crlf",
+    "binary | eol=lf",
+    "text | -text eol=crlf",
+    // thorough only
+    "eol=lf",
+    "crlf=input",
     "text=auto eol=crlf ident",
     "text eol=lf",
     "eol=crlf",
@@ -39,10 +57,9 @@ const ATTRS: [&str; 20] = [
     "-crlf",
     "crlf=auto",
     "text ident",
-    "-text eol=crlf",
     "-text ident",
 ];
-const QUICK_ATTRS: usize = 12;
+const QUICK_ATTRS: usize = 25;
 /// (core.autocrlf, core.eol) — `true` + `lf` is refused by git as conflicting
 /// the first `QUICK_CONFIGS` are used in the quick tier
 const CONFIGS: [(&str, &str); 6] = [("false", ""), ("false", "crlf"), ("true", ""), ("input", ""), ("false", "lf"), ("input", "crlf")];
@@ -76,8 +93,8 @@ fn oracle_for_config(base: &Path, cfg: usize, attr_idx: &[usize], contents: &[Ve
     let io = |e: std::io::Error| -> ! { vkit::machinery!("fixture i/o failed: {e}") };
     let mut ga = String::new();
     for &a in attr_idx {
-        if !ATTRS[a].is_empty() {
-            ga.push_str(&format!("/d{a}/* {}\n", ATTRS[a]));
+        for line in ATTRS[a].split(" | ").filter(|l| !l.is_empty()) {
+            ga.push_str(&format!("/d{a}/* {line}\n"));
         }
     }
     std::fs::write(dir.join(".gitattributes"), ga).unwrap_or_else(|e| io(e));
@@ -189,8 +206,9 @@ fn attr_search(attrs: &str) -> AttrSearch {
     let mut collection = gix_attributes::search::MetadataCollection::default();
     let mut search = gix_attributes::Search::default();
     search.add_patterns_buffer(b"[attr]binary -diff -merge -text", "[builtin]".into(), None, &mut collection, true);
-    if !attrs.is_empty() {
-        search.add_patterns_buffer(format!("* {attrs}\n").as_bytes(), "attributes".into(), None, &mut collection, true);
+    let lines: String = attrs.split(" | ").filter(|l| !l.is_empty()).map(|l| format!("* {l}\n")).collect();
+    if !lines.is_empty() {
+        search.add_patterns_buffer(lines.as_bytes(), "attributes".into(), None, &mut collection, true);
     }
     AttrSearch { search, collection }
 }
@@ -288,7 +306,7 @@ fn contents(quick: bool) -> Vec<Vec<u8>> {
 pub fn run(run: &'static Run) {
     run.rule(
         "contents = quick: all strings of <=3 tokens over {a, LF, CRLF, CR, NUL, $Id$, 0x1A (DOS EOF)} and <=2 tokens with `$Id: x $` and 0x01 added; thorough: <=3 tokens over all 9 and exactly 4 tokens over {a, LF, CRLF, CR, NUL, $Id$}; \
-         plus 127/128/129 printable bytes followed by <=2 tokens of {CRLF, 0x01, 0x1A, 0x7F} (git's binary heuristic threshold); x 12 (quick) / 20 (thorough) attribute sets (text, -text, text=auto, eol=lf|crlf, crlf, -crlf, crlf=input|auto, binary, ident and combinations) \
+         plus 127/128/129 printable bytes followed by <=2 tokens of {CRLF, 0x01, 0x1A, 0x7F} (git's binary heuristic threshold); x 25 (quick) / 35 (thorough) attribute sets (text, -text, text=auto, eol=lf|crlf, crlf, -crlf, crlf=input|auto, binary, ident and combinations, incl. {-text, binary, -crlf} x {eol=lf, eol=crlf} on one line and as two attribute lines for the same path) \
          x (core.autocrlf, core.eol) in {(false,-),(false,crlf),(true,-)} (quick) + {(input,-),(false,lf),(input,crlf)} (thorough) x core.safecrlf (warn in git == Fail in gitoxide; conversion result with the check skipped); \
          both directions per case; non-trivial = git changed the content in at least one direction or warned",
     );
@@ -396,7 +414,7 @@ pub fn run(run: &'static Run) {
                 (Err(e), None) => return bad("safecrlf-spurious", format!("{desc}: git's safecrlf check is silent, gitoxide fails with {e}")),
             }
             // ---- to worktree
-            let ident = c.attrs.split(' ').any(|x| x == "ident");
+            let ident = c.attrs.split(' ').any(|x| x == "ident") && !c.attrs.contains("-ident");
             let mut class = String::new();
             if ident && has_expanded_ident(&c.content) {
                 class.push_str("expanded-ident-skipped");
